@@ -6,6 +6,7 @@ or off the AST where the source spells it as a literal (the BIP340 challenge tag
 import ast
 import inspect
 
+from btclib import silent_payments as sp
 from btclib.ecc import dleq, musig2, ssa
 
 NS = "Interactive"
@@ -51,4 +52,11 @@ def constants():
     t += _b("DLEQ_CHALLENGE_TAG", dleq._CHALLENGE_TAG, "`dleq._CHALLENGE_TAG`")
     t += _n("DLEQ_SCALAR_SIZE", dleq._SCALAR_SIZE, "`dleq._SCALAR_SIZE`")
     t += _n("DLEQ_PROOF_SIZE", dleq._PROOF_SIZE, "`dleq._PROOF_SIZE`")
+    t += _b("SP_INPUTS_TAG", sp._INPUTS_TAG, "`silent_payments._INPUTS_TAG`")
+    t += _b("SP_LABEL_TAG", sp._LABEL_TAG, "`silent_payments._LABEL_TAG`")
+    t += _b("SP_SHARED_SECRET_TAG", sp._SHARED_SECRET_TAG, "`silent_payments._SHARED_SECRET_TAG`")
+    t += _n("SP_LABEL_SIZE", sp._LABEL_SIZE, "`silent_payments._LABEL_SIZE`")
+    t += _n("SP_MAX_LABEL", sp._MAX_LABEL, "`silent_payments._MAX_LABEL`")
+    t += _n("SP_K_MAX", sp.K_MAX, "`silent_payments.K_MAX`")
+    t += _n("SP_PK_SIZE", sp._PK_SIZE, "`silent_payments._PK_SIZE`")
     return t
